@@ -304,8 +304,8 @@ def r036(ctx):
         mk = [c for c in a.calls() if c.callee.startswith('crossbeam_channel::') and c.callee.split('::')[-1] in ('unbounded', 'bounded')]
         r.check('consumer-queue:unbounded', len(mk) == 1 and mk[0].callee == 'crossbeam_channel::unbounded', ctx.site(D.PROCESS, a.node),
                 built=[S.show(c.term) for c in mk], expected='crossbeam_channel::unbounded()', why='a bounded consumer queue would make the I/O thread fail or stall on a slow consumer')
-        ins = [c for c in a.calls('VacantEntry::insert')]
-        r.check('consumer-queue:sender-stored', len(ins) == 1 and S.show(ins[0].args[1]) == 'crossbeam_channel::unbounded().0', ctx.site(D.PROCESS, a.node),
+        ins = [c for c in a.calls('HashMap::insert')]  # through the vacant entry, or directly behind a presence test
+        r.check('consumer-queue:sender-stored', len(ins) == 1 and S.show(ins[0].args[2]) == 'crossbeam_channel::unbounded().0', ctx.site(D.PROCESS, a.node),
                 built=[S.show(c.term) for c in ins])
         # the send helper is non-blocking
         rows = P.table(ctx, 'io_loop::connection_state::send', ['tx', 'item'])
